@@ -5,7 +5,7 @@ use std::io::{Read, Write};
 
 pub const NAMES: &[&str] = &[
     "vargs", "vcat", "vhead", "venv", "vfds", "vsleep", "vemit", "vtrue", "vfalse", "vexit", "vprod", "vcons",
-    "vecho", "vline", "vstatus",
+    "vecho", "vline", "vstatus", "vio",
 ];
 
 pub fn is_helper(name: &str) -> bool {
@@ -155,7 +155,36 @@ pub fn main(name: &str, args: &[String]) -> i32 {
                     s.push_str(&format!("{fd}={kind}:{mode}{app} "));
                 }
             }
-            let _ = writeln!(out, "{}", s.trim_end());
+            // with an argument the table goes to that file (opened only now, so it is not in the table)
+            if let Some(name) = args.first() {
+                if let Ok(mut f) = std::fs::File::create(name) {
+                    let _ = writeln!(f, "{}", s.trim_end());
+                }
+            } else {
+                let _ = writeln!(out, "{}", s.trim_end());
+            }
+            0
+        }
+        "vio" => {
+            // probe the descriptors this process was given: write O to 1, E to 2, T to 3, read a line from 0;
+            // the report goes to a side file so that it does not depend on the redirections under test
+            let w = |fd: i32, s: &str| -> bool { unsafe { libc::write(fd, s.as_ptr() as *const _, s.len()) == s.len() as isize } };
+            let o = w(1, "O\n");
+            let e = w(2, "E\n");
+            let t = w(3, "T\n");
+            let mut line = vec![];
+            let mut b = [0u8; 1];
+            loop {
+                let r = unsafe { libc::read(0, b.as_mut_ptr() as *mut _, 1) };
+                if r != 1 || b[0] == b'\n' {
+                    break;
+                }
+                line.push(b[0]);
+            }
+            let name = args.first().cloned().unwrap_or_else(|| "report.txt".into());
+            if let Ok(mut f) = std::fs::OpenOptions::new().create(true).append(true).open(&name) {
+                let _ = writeln!(f, "wrote1={o} wrote2={e} wrote3={t} read0={:?}", String::from_utf8_lossy(&line));
+            }
             0
         }
         "vsleep" => {
